@@ -1,6 +1,7 @@
 import Corro.Model.Crdt
 import Corro.Model.Node
 import Corro.Model.Ingest
+import Corro.Gen.IngestCode
 import Driver.Util
 import Driver.CrdtFmt
 import Driver.ClusterOps
@@ -40,7 +41,7 @@ def parseItem (st : State) (s : String) : Except String Item :=
   | .error e => .error e
   | .ok it =>
     match it with
-    | .full _ _ lo hi _ _ => if lo ≤ hi then .ok it else (if s.startsWith "o" then .error "err bad-chunk" else .error "bad-op")
+    | .full _ _ lo hi _ _ => if lo ≤ hi ∨ !s.startsWith "o" then .ok it else .error "err bad-chunk"
     | .empty .. => .ok it
 
 def isHeldItem (st : State) (it : Item) : Bool := Ingest.held st.ing.node it
@@ -57,7 +58,7 @@ def doOffer (p : Params) (st : State) (text : String) (it : Item) (bcast : Bool)
   let drop := s'.droppedItems.length - s.droppedItems.length
   let spawn := s'.inflight.length - s.inflight.length
   let rb := if acc && bcast && !it.isEmpty then 1 else 0
-  let offered := if it.site ≠ nutId ∧ !(st.offered.any (·.text = text)) then st.offered ++ [⟨text, it⟩] else st.offered
+  let offered := if it.site ≠ nutId ∧ !(Ingest.inverted it) ∧ !(st.offered.any (·.text = text)) then st.offered ++ [⟨text, it⟩] else st.offered
   ({ st with ing := s', offered := offered }, s!"ok drop={drop} spawn={spawn} rb={rb}")
 
 /-- `release`: every running and queued batch finishes (`Err` while the database is locked by the
@@ -84,6 +85,11 @@ def reoffer (p : Params) : Nat → Nat → State → State × Nat
     let todo := st.offered.filter (fun o => !isHeldItem st o.item)
     if todo.isEmpty then (st, done) else reoffer p r (done + 1) (reofferRound p st todo)
 
+/-- the parameters and the eviction rule the code has (regenerated from the source on every run) -/
+def codeParams (q c : Nat) : Params :=
+  ⟨q, c, Corro.Gen.IngestCode.maxConcurrent, keepSeenOf q, Corro.Gen.IngestCode.evictDropped,
+   Corro.Gen.IngestCode.clearOnFail⟩
+
 def showDump (n : Node) : String := s!"{dump n.db} | {Driver.ClusterOps.showBook n}"
 
 def step (st : State) (toks : List String) : Option (State × String) :=
@@ -108,7 +114,7 @@ def step (st : State) (toks : List String) : Option (State × String) :=
     let c ← chunk.toNat?.filter (fun x => 1 ≤ x ∧ x ≤ 100000)
     if !tickOk then none else
     if st.params.isSome then pure (st, "err configured") else
-    let p : Params := { maxQueueLen := q, maxChangesChunk := c, maxConcurrent := 5, keepSeen := keepSeenOf q, evictDropped := false }
+    let p := codeParams q c
     -- the interval's first tick fires at once
     pure ({ st with params := some p, ing := Ingest.step p st.ing .tick }, "ok")
   | ["hold"] =>
